@@ -39,7 +39,7 @@ func verifNewStorage(cacheDir string) *Default {
 // keeps serving its previous version, a refreshed list serves its new version, and
 // invalid entries never remove a valid one.
 //
-//verif:harness name=H13b-storage tier=quick,thorough bounds="index of two valid lists plus one entry from {none, duplicate key, invalid key, empty URL, third valid list}; two refresh rounds; every list download fails or succeeds independently in each round" reach=done,kept-previous,replaced,invalid-entry maxpaths=50000
+//verif:harness name=H13b-storage tier=quick,thorough bounds="index of two valid lists plus one entry from {none, duplicate key, invalid key, empty URL, non-HTTP URL, third valid list} sorting first, between or last in the index; two refresh rounds; every list download fails or succeeds independently in each round" reach=done,kept-previous,replaced,invalid-entry maxpaths=50000
 //verif:assume symbolic build: the index download/JSON decoding (loadIndex) and the per-list download (rulelist.Refreshable.Refresh) are stubs with the chosen outcome; native replay uses a loopback HTTP server; blocked-service and safe-search refresh are not configured
 func VerifC13Storage() {
 	env := verifNewEnv13()
@@ -47,21 +47,25 @@ func VerifC13Storage() {
 	s := verifNewStorage(env.cacheDir())
 	env.attach(s)
 
-	third := verifChoice(5)
+	third := verifChoice(6)
 	keys := []string{"list_a", "list_b"}
 	valid := []string{"list_a", "list_b"}
+	// the index is sorted by key: the extra entry may sort first, between or last
+	posKey := []string{"list_0", "list_aa", "list_z"}[verifChoice(3)]
 	switch third {
 	case 1:
 		keys = append(keys, "list_a") // duplicate
 	case 2:
 		keys = append(keys, "bad key!")
 	case 3:
-		keys = append(keys, "") // entry with empty URL (key list_z)
+		keys = append(keys, "!empty:"+posKey) // entry with an empty URL
 	case 4:
-		keys = append(keys, "list_c")
-		valid = append(valid, "list_c")
+		keys = append(keys, posKey)
+		valid = append(valid, posKey)
+	case 5:
+		keys = append(keys, "!ftp:"+posKey) // entry with a non-HTTP download URL
 	}
-	if third >= 1 && third <= 3 {
+	if third == 1 || third == 2 || third == 3 || third == 5 {
 		verifReach("invalid-entry")
 	}
 	env.setIndex(keys)
